@@ -4,6 +4,7 @@ use crate::engine::*;
 use crate::sim::script::*;
 use crate::sim::world::*;
 use proptest::prelude::*;
+use uflow::verif::Serialize as _;
 
 pub struct C08;
 
@@ -71,6 +72,25 @@ pub fn check_event_streams(log: &WorldLog) -> Result<(), Violation> {
         }).collect();
         let mut state = 0; // 0 no connection, 1 connected
         let mut connected_seq = 0u64;
+        // handshake attempts of this address: the first SYN-ACK of each nonce, or a refusal, sent by the server
+        let mut attempts: Vec<u64> = Vec::new();
+        {
+            let mut last_nonce: Option<u32> = None;
+            for r in w.wire.iter().filter(|r| r.from == w.server_addr && r.to == a) {
+                match uflow::verif::Frame::read(&r.bytes) {
+                    Some(uflow::verif::Frame::HandshakeSynAckFrame(f)) => {
+                        if last_nonce != Some(f.nonce) {
+                            attempts.push(r.seq);
+                            last_nonce = Some(f.nonce);
+                        }
+                    }
+                    Some(uflow::verif::Frame::HandshakeErrorFrame(_)) => attempts.push(r.seq),
+                    _ => {}
+                }
+            }
+        }
+        // everything up to this point in the event order has been accounted to a finished connection / attempt
+        let mut consumed_until = 0u64;
         for (seq, t, e) in w.server_events.iter() {
             let (ea, name) = match e {
                 SEv::Connect(x) => (x, "Connect"),
@@ -82,8 +102,11 @@ pub fn check_event_streams(log: &WorldLog) -> Result<(), Violation> {
                 continue;
             }
             // an application drop() ends the connection without an event
-            if state == 1 && drops.iter().any(|d| *d > connected_seq && *d < *seq) {
-                state = 0;
+            if state == 1 {
+                if let Some(d) = drops.iter().find(|d| **d > connected_seq && **d < *seq) {
+                    state = 0;
+                    consumed_until = *d;
+                }
             }
             match e {
                 SEv::Connect(_) => {
@@ -92,6 +115,7 @@ pub fn check_event_streams(log: &WorldLog) -> Result<(), Violation> {
                     }
                     state = 1;
                     connected_seq = *seq;
+                    consumed_until = *seq;
                 }
                 SEv::Receive(..) | SEv::Disconnect(_) => {
                     if state != 1 {
@@ -99,9 +123,23 @@ pub fn check_event_streams(log: &WorldLog) -> Result<(), Violation> {
                     }
                     if matches!(e, SEv::Disconnect(_)) {
                         state = 0;
+                        consumed_until = *seq;
                     }
                 }
-                SEv::Error(..) => state = 0,
+                SEv::Error(_, err) => {
+                    if state == 0 {
+                        // an Error without a connection is the end of a handshake attempt: there must be one
+                        // (a SYN-ACK or refusal sent to this address) that no earlier event accounts for
+                        if !attempts.iter().any(|s| *s > consumed_until && *s < *seq) {
+                            return Err(Violation::new(
+                                format!("oracle:c08:server_error_without_connection_or_attempt:{:?}", err),
+                                format!("server reported Error({a}, {:?}) at t={t} us although that address has neither a connection (never connected, already ended, or dropped by the application) nor an unanswered handshake attempt", err),
+                            ));
+                        }
+                    }
+                    state = 0;
+                    consumed_until = *seq;
+                }
             }
         }
     }
@@ -165,7 +203,7 @@ impl Check for C08 {
     }
 
     fn rule(&self) -> String {
-        "case = World script: a real Server and 1-3 (quick) real Clients (active timeouts 1.5 / 3 / 20 s, keepalive on or off) on links with per-datagram fates (delay, drop, duplicate up to 3 s apart, corrupt) and blackouts, driven by a generated interleaving of send (both directions, all modes), disconnect, disconnect_now, Server::drop, flush, and ticks that step the server and an arbitrary subset of clients with spacings from 0 to 25 s (clock jumps across the 2 s / 20 s / 22 s timers), followed by 50 s of regular stepping. Oracle: an automaton per connection over the iterators returned by step(): client [Connect] Receive* [Disconnect | Error] then silence, Receive / Disconnect only after Connect, Connect at most once; server per address the same, a new Connect only after the previous connection's terminal event or an application drop(addr), and nothing for a dropped connection. Non-trivial = at least one disconnect / drop call and at least one faulted datagram. Distinct = distinct serialised case.".into()
+        "case = World script: a real Server and 1-3 (quick) real Clients (active timeouts 1.5 / 3 / 20 s, keepalive on or off) on links with per-datagram fates (delay, drop, duplicate up to 3 s apart, corrupt) and blackouts, driven by a generated interleaving of send (both directions, all modes), disconnect, disconnect_now, Server::drop, flush, and ticks that step the server and an arbitrary subset of clients with spacings from 0 to 25 s (clock jumps across the 2 s / 20 s / 22 s timers), followed by 50 s of regular stepping. Oracle: an automaton per connection over the iterators returned by step(): client [Connect] Receive* [Disconnect | Error] then silence, Receive / Disconnect only after Connect, Connect at most once; server per address the same, a new Connect only after the previous connection's terminal event or an application drop(addr), and nothing for a dropped connection; an Error for an address without a connection must be the end of a handshake attempt (a SYN-ACK or refusal was sent to it since). Non-trivial = at least one disconnect / drop call and at least one faulted datagram. Distinct = distinct serialised case.".into()
     }
 
     fn assumptions(&self) -> Vec<String> {
